@@ -186,6 +186,12 @@ def main():
     n_cbmc = sum((h.get("cbmc_checks") or 0) for h in cov["bounded_harnesses"])
     if n_cbmc:
         cov["bounded_cbmc_checks"] = n_cbmc
+        if cov["obligations"] == 0:
+            # a property decided only by bounded harnesses (level `other`): the obligations are the CBMC checks of the
+            # harnesses (assertions, unwinding assertions, safety checks), discharged UP TO THE STATED BOUNDS only
+            cov["obligations"] = n_cbmc
+            cov["discharged"] = n_cbmc if not real else 0
+            cov["obligations_note"] = "bounded: CBMC property checks of the harnesses, valid up to the bounds listed in bounded_harnesses; not a proof"
     if cfg.get("explanation"):
         cov["explanation"] = cfg["explanation"]
     cov["known_findings_reported"] = [k["obligation"] for k, _ in known_hits]
